@@ -103,6 +103,10 @@ def programs_for(lit):
             nested_envs += [dict(f=(x, second)), dict(f=[x, second]), dict(f=(x,)), dict(f=x)]
         second_src = '"z"' if isinstance(lit.value, str) else "5"
         yield "nested-tuple-member", op, f"def m {{ if f {op} (({src}, {second_src}), (1, 2)) {T} else {F} }}", nested_envs
+        dup_envs = []
+        for x in ins:
+            dup_envs += [dict(f=(x, x)), dict(f=(x,)), dict(f=(x, x, x)), dict(f=x)]
+        yield "nested-tuple-repeated-member", op, f"def m {{ if f {op} (({src}, {src}), (1, 1), {src}, {src}) {T} else {F} }}", dup_envs
     if isinstance(lit.value, str):
         # a tuple of (key, value) pairs, three levels deep: nothing in there is anything but data
         pairs_envs = []
